@@ -41,6 +41,14 @@ round 4: every generated case runs under ImplGuard: an exception raised by the c
          distances) in correspondence (requests eucobj2, cwd, tld, georect; angdist / eucld
          answered by the object-level models); Euclidean grids of dimension 1-5 in every
          suite, regular grids from 1-3 axes, one 130-node grid per distance suite
+round 5: Lemmas/GeoRoundNN.lean + Properties: both nearest-node lookups and the radian
+         conversion in rounded arithmetic (gridNodeNumber_rounded / _separated / _first,
+         geoNodeNumber_rounded, rRad_error), the linear regime of the rounded angular kernel;
+         the conclusion of gridNodeNumber_rounded decided in Fractions on float queries incl.
+         near-ties; the models executed in IEEE Float / Float32 against Grid.node_number
+         (gridnnf, gridnnf32) and against the compiled angular kernel on the grid's own
+         generic tables (cosangf32, all sizes incl. 130 nodes) under tolerances derived from
+         the theorems; symBlock read-out (theorem fillSym_block) for kernels beyond 16 / 27 nodes
 """
 import contextlib
 import io
@@ -456,7 +464,11 @@ def run(ctx):
         "networks sharing one grid; round 4: one angular and one Euclidean grid of 130 nodes per run; "
         "geo networks' connectivity weighted and total link distances (all six wrappers, "
         "geometry_corrected both ways, directed and undirected); an exception raised by the code "
-        "under test in any suite is reported as a violation with the inputs of the case")
+        "under test in any suite is reported as a violation with the inputs of the case; round 5: "
+        "Grid.node_number on float32 grids (scaled 2^-8 / 1 / 2^10, coincident nodes) with float "
+        "queries at / near a node, random, and within 2^-60..2^-20 of a bisector, passed as tuple / "
+        "list / float64 array / float32 array; the angular kernel on every grid's own tables incl. "
+        "the 130-node grid; the Euclidean kernel at 130 and 260 nodes")
     ctx.trusted = common.DEFAULT_TRUSTED + [
         "IEEE-754: float32 arithmetic on the dyadic kernel inputs is exact (all intermediate "
         "values have < 24 significant bits) — the reason the Rat model can be compared exactly",
@@ -472,6 +484,11 @@ def run(ctx):
         "dimensions: theorem euclidean_entry_accuracy_float32); that the hardware satisfies the "
         "model is trusted, the bound is also sampled",
         "libm / numpy sin, cos, arccos, sqrt, powf: modelled as the real functions",
+        "round 5: lookups and radian conversion are theorems under the standard model (u = 2^-53 "
+        "/ 2^-24 per operation, correctly rounded square root); numpy's np.sum(axis=1) is a left "
+        "fold below 8 summands (the order the model has); IEEE-754 semantics of Lean's Float / "
+        "Float32 runtime (no fused multiply-add contraction) for the float model streams, which "
+        "are judged under tolerances derived from the theorems, never by float equality",
     ]
     ctx.assumptions = [
         "coordinates are finite; |lat| <= 90; Euclidean coordinates stay far from float32 "
@@ -1760,8 +1777,17 @@ def angular_twins(ctx, GeoGrid, rng, g, lat, lon, D):
             rng.shuffle(perm)
             g2 = GeoGrid(np.arange(2), np.array([lat[p] for p in perm]),
                          np.array([lon[p] for p in perm]), silence_level=3)
-            if not np.array_equal(np.array(g2.angular_distance()), D[np.ix_(perm, perm)],
-                                  equal_nan=True):
+            Dp, De = np.array(g2.angular_distance()), D[np.ix_(perm, perm)]
+            if np.array_equal(Dp, De, equal_nan=True):
+                ctx.count("angular:permutation-twin-bitwise")
+            elif (Dp.shape == De.shape and not np.isnan(Dp).any() and not np.isnan(De).any()
+                  and float(np.abs(Dp.astype(np.float64) - De.astype(np.float64)).max())
+                  < 2 * ABS_ANG):
+                # round 5: an evaluation order that is not symmetric in (i, j) bit for bit (equal
+                # over the reals) is not a violation of C12: both entries are within 2^-10 of the
+                # same closed form.  An index mix-up moves entries by far more.
+                ctx.count("angular:permutation-twin-within-2*2^-10")
+            else:
                 out.append(("permutation", f"relabelling the nodes by {perm} does not permute "
                                            "the distance matrix"))
         elif what == "history" and n >= 1:
